@@ -24,7 +24,12 @@ Decided:
         server_conn via/transport_protocol (argument -> field source table), binds context.server and flow.server_conn
         to the returned connection on success only, and returns False on error.
   R08.4 connection.Server.__setattr__: raises iff name in {address, via} and the connection is OPEN and the value
-        changes (decision table name x open x changed); otherwise stores the value.
+        changes; otherwise stores the value.  The method is INTERPRETED (pyint) on concrete Server objects, one world per
+        (name, state incl. "not initialised yet", current value, assigned value: same object / equal / different / None), and
+        its outcome (raises before storing | stores exactly (name, value)) is compared with that reference - the spelling of the
+        guard (literal or module-level set, .get / try-except KeyError / getattr / vars / hasattr, `connected`, helpers,
+        early returns, match, object.__setattr__ vs super()) does not matter.  Half-closed states are not constrained for
+        address / via (not "open" today; the property does not say).
   R08.5 HttpLayer.register_connection takes the waiters out of waiting_for_establishment, answers every waiter exactly
         once, with (None, err) iff the attempt failed and (connection, None) otherwise.
 Assumption of the value-based reading: a predicate bound to a single-assignment temporary is as true where the temporary is
@@ -64,7 +69,7 @@ from ._helpers_A import show
 PROP = "C08"
 REG = {
     "strength": "partial",
-    "technique": "interpretation of the match predicate's AST over spec pairs differing in one field + decision tables over condition atoms (match predicate, __setattr__ guard), CFG path enumeration with control-dependence facts, argument->field source table",
+    "technique": "interpretation of the match predicate's AST over spec pairs differing in one field + decision tables over condition atoms (match predicate), interpretation of Server.__setattr__ in concrete worlds (name x state x current/assigned value), CFG path enumeration with control-dependence facts, argument->field source table",
     "claim": "connection_spec_matches compares every field of GetHttpConnection; get_connection hands out / waits on / creates connections only "
     "under a successful match and builds new Servers from the request's own spec; make_server_connection asks for the flow's current destination "
     "and binds the result; Server.address/via cannot change while OPEN; failed attempts answer waiters with an error.",
@@ -950,88 +955,192 @@ def _r083(ctx):
 
 
 # ---------------------------------------------------------------------------------------------------
+def _connection_state_flag(model):
+    """connection.ConnectionState as a real enum.Flag: the members are evaluated from the class body (integers, earlier members, | & ^ ~)."""
+    import enum
+
+    cls = model.cls(CONN, "ConnectionState")
+    members: dict = {}
+
+    def ev(e):
+        if isinstance(e, ast.Constant) and isinstance(e.value, int) and not isinstance(e.value, bool):
+            return e.value
+        if isinstance(e, ast.Name) and e.id in members:
+            return members[e.id]
+        if isinstance(e, ast.Attribute) and isinstance(e.value, ast.Name) and e.value.id == "ConnectionState" and e.attr in members:
+            return members[e.attr]
+        if isinstance(e, ast.BinOp) and isinstance(e.op, (ast.BitOr, ast.BitAnd, ast.BitXor, ast.LShift, ast.Add)):
+            a, b = ev(e.left), ev(e.right)
+            return {ast.BitOr: a | b, ast.BitAnd: a & b, ast.BitXor: a ^ b, ast.LShift: a << b, ast.Add: a + b}[type(e.op)]
+        if isinstance(e, ast.Call) and last_attr(e.func) == "auto" and not e.args and not e.keywords:
+            return 1 << sum(1 for v in members.values() if v and v & (v - 1) == 0)  # enum.auto() of a Flag: the next free bit
+        raise AnalysisError(f"connection.ConnectionState member not evaluable: {norm(e)}")
+
+    for st in cls.body:
+        if isinstance(st, ast.Assign) and len(st.targets) == 1 and isinstance(st.targets[0], ast.Name):
+            members[st.targets[0].id] = ev(st.value)
+        elif isinstance(st, ast.AnnAssign) and isinstance(st.target, ast.Name) and st.value is not None:
+            members[st.target.id] = ev(st.value)
+    if not {"CLOSED", "OPEN"} <= set(members) or members["CLOSED"] != 0 or not members["OPEN"]:
+        raise AnalysisError(f"connection.ConnectionState is not the flag set R08.4 assumes (CLOSED = 0, OPEN != 0): {members}")
+    return enum.Flag("ConnectionState", members)
+
+
 def _r084(ctx):
-    fn = ctx.func(CONN, "Server.__setattr__")
+    """Server.__setattr__ is *interpreted* (pyint) on concrete Server objects - one world per (attribute name, connection state,
+    current value, assigned value) - and its outcome (raises | stores what) is compared with the reference decision
+        raise  iff  name in {address, via}  and  state is OPEN  and  current value != assigned value,   else store exactly (name, value).
+    How the guard is spelled (membership in a literal / a module-level frozenset, `.get()` vs try/except KeyError vs getattr with a
+    default, temporaries, a private `_is_open()` helper or the `connected` property, early return, message formatting) is irrelevant."""
+    import collections
+
+    from ..pyint import Interp
+    from ..pyint import Raised
+    from ..pyint import Rec
+
+    r = ctx.model.method(CONN, "Server", "__setattr__")  # (defined by Server today; a base class of the same module would do)
+    ctx.require(r is not None and r[0].rel == CONN, "connection.Server has no __setattr__ any more: nothing keeps address / via from being changed while the connection is open")
+    qual = getattr(r[1], "_qual", "Server.__setattr__")
+    fn = ctx.func(CONN, qual)
     ps = params_of(fn)
-    ctx.require(len(ps) == 2, "Server.__setattr__ signature changed")
-    name_p, value_p = ps
-    w = (CONN, "Server.__setattr__", fn)
+    ctx.require(len(ps) == 2, f"{qual} signature changed")
+    w = (CONN, qual, fn)
+    flag = _connection_state_flag(ctx.model)
+    OPEN_ = flag["OPEN"]
+    SS = collections.namedtuple("ServerSpec", "scheme address")  # stands for mitmproxy.net.server_spec.ServerSpec (a NamedTuple)
 
-    def val(expr, st, sp):
-        # reads of the connection state / of the attribute's current value, however they are spelled or named afterwards
-        if isinstance(expr, ast.Attribute) and canon_chain(expr, st, sp) == "self.state":
-            return sym("state")
-        if isinstance(expr, ast.Call) and canon_chain(expr.func, st, sp) == "self.__dict__.get" and expr.args and not expr.keywords:
-            k = expr.args[0]
-            if isinstance(k, ast.Constant) and k.value == "state":
-                return sym("state")
-            if canon_chain(k, st, sp) == name_p:
-                return sym("cur")
-        if isinstance(expr, ast.Call) and isinstance(expr.func, ast.Name) and expr.func.id == "getattr" and len(expr.args) >= 2 and not expr.keywords:
-            if canon_chain(expr.args[0], st, sp) == "self":
-                k = expr.args[1]
-                if isinstance(k, ast.Constant) and k.value == "state":
-                    return sym("state")
-                if canon_chain(k, st, sp) == name_p:
-                    return sym("cur")
+    class SI(Interp):
+        """The Server under test keeps its instance attributes in ``attrs`` (that is what `self.__dict__` / vars(self) / getattr see);
+        the end of the __setattr__ chain (object.__setattr__, reached through super() or called directly) records the store."""
+
+        me = None
+        attrs: dict = {}
+
+        def class_attr(self, cref, attr, depth):
+            if cref.mod.rel == CONN and cref.node.name == "ConnectionState" and attr in flag.__members__:
+                return flag[attr]
+            try:
+                return Interp.class_attr(self, cref, attr, depth)
+            except AnalysisError:
+                if attr == "__setattr__" and cref.mod.rel == CONN:
+                    return store  # `Connection.__setattr__(self, name, value)`: no class of the hierarchy defines it, it is object's
+                raise
+
+        def getattr(self, base, attr, node, depth):
+            if base is self.me:
+                if attr == "__dict__":
+                    return self.attrs
+                if attr in self.attrs:
+                    return self.attrs[attr]
+                if attr == "__class__":
+                    return Interp.builtin(self, "type", [base], {}, node, {}, None, depth)
+                if self.find_property(base, attr) is None and self.model.method(CONN, "Server", attr) is None and not attr.startswith("_super"):
+                    try:
+                        return Interp.getattr(self, base, attr, node, depth)  # class-level constants
+                    except AnalysisError:
+                        raise Raised("AttributeError", attr)  # an instance attribute that has not been assigned yet
+            return Interp.getattr(self, base, attr, node, depth)
+
+        def name(self, ident, env, mod, depth, node):
+            if ident in ("vars", "object") and ident not in env and mod.get(ident) is None and ident not in mod.imports and not mod.assigns(ident):
+                return vars_ if ident == "vars" else OBJECT
+            return Interp.name(self, ident, env, mod, depth, node)
+
+    it_box: list = []
+
+    def store(*a):
+        # object.__setattr__(self, name, value) / super().__setattr__(name, value)
+        it = it_box[0]
+        if len(a) == 3 and a[0] is it.me:
+            a = a[1:]
+        if len(a) != 2 or not isinstance(a[0], str):
+            raise AnalysisError(f"Server.__setattr__: the store at the end of the __setattr__ chain is called with {a!r} (not modelled)")
+        it.attrs[a[0]] = a[1]
         return None
 
-    def atom(expr, st, sp):
-        cp = compare_pair(expr, (ast.Is, ast.IsNot, ast.Eq, ast.NotEq))
-        if cp:
-            pos = isinstance(cp[2], (ast.Is, ast.Eq))
-            for a, b in ((cp[0], cp[1]), (cp[1], cp[0])):
-                va = sp.v(a, st)
-                if va == sym("state") and canon_chain(b, st, sp) == "ConnectionState.OPEN":
-                    return ("OPEN", pos)
-                if va == sym("cur") and canon_chain(b, st, sp) == value_p and isinstance(cp[2], (ast.Eq, ast.NotEq)):
-                    return ("CHG", not pos)
-        return None
+    store._pyint_accepts_abstract = True
 
-    def label(node, st, sp):
-        out = []
-        for n in eval_order(node):
-            if isinstance(n, ast.Call) and isinstance(n.func, ast.Attribute) and n.func.attr == "__setattr__" and isinstance(n.func.value, ast.Call) and last_attr(n.func.value.func) == "super":
-                out.append(("store", tuple(canon_chain(a, st, sp) for a in n.args)))
-        return out
+    def vars_(o):
+        it = it_box[0]
+        if o is not it.me:
+            raise AnalysisError("Server.__setattr__: vars() of something else than self (not modelled)")
+        return it.attrs
 
-    mod = ctx.model.module(CONN)
+    vars_._pyint_accepts_abstract = True
+    OBJECT = Rec("object", _name="object", __setattr__=store)
 
-    def const_resolver(e):
-        # `name in _FROZEN` with a module-level literal collection (possibly wrapped in frozenset()/tuple()/set())
-        if not isinstance(e, ast.Name):
-            return None
-        vals = mod.assigns(e.id)
-        if len(vals) != 1:
-            return None
-        lit = vals[0]
-        if isinstance(lit, ast.Call) and isinstance(lit.func, ast.Name) and lit.func.id in ("frozenset", "set", "tuple", "list") and len(lit.args) == 1 and not lit.keywords:
-            lit = lit.args[0]
-        if isinstance(lit, (ast.Tuple, ast.Set, ast.List)) and all(isinstance(x, ast.Constant) for x in lit.elts):
-            return lit
-        return None
+    def run(name, state, cur, value):
+        """('raise', exception) | ('store', [(name, value)]) for `server.<name> = value` on a Server whose attributes are: state (absent
+        when ``state`` is None: the dataclass __init__ has not got that far), <name> = cur (absent when cur is ABSENT)."""
+        it = SI(ctx.model, max_steps=20000)
+        it_box[:] = [it]
+        it.me = Rec("Server", _bases=("Connection",), _impl=(CONN, "Server"), _name="server", _super_stubs={"__setattr__": store})
+        it.attrs = {}
+        if state is not None:
+            it.attrs.update(peername=None, sockname=None, state=state, transport_protocol="tcp", error=None, tls=False, sni=None)
+        if cur is not ABSENT:
+            it.attrs[name] = cur
+        ctx.cells += 1
+        before = dict(it.attrs)
+        try:
+            it.method(it.me, "__setattr__", name, value)
+        except Raised as r:
+            return ("raise", r.name, before, dict(it.attrs))
+        return ("store", None, before, dict(it.attrs))
 
-    resolver = _helper_resolver_in(ctx, CONN, "Server", ("__setattr__",))
-
-    n = 0
-    for name in ("address", "via", "peername", "sni", "state"):
-        for OPEN in (True, False):
-            for CHG in (True, False):
-                spec = DSpec(label=label, atom=atom, val=val, scenario={"OPEN": OPEN, "CHG": CHG}, const_resolver=const_resolver, resolver=resolver)
-                traces, _ = run_d(fn.body, spec, {name_p: C(name), value_p: ("param", value_p)})
-                ctx.cells += 1
-                ctx.require(traces, "Server.__setattr__: no path")
-                must_raise = name in ("address", "via") and OPEN and CHG
-                outcomes = {("raise" if how.startswith("raise") else "store" if proj(tr, ("store",)) == (("store", (name_p, value_p)),) else "other") for tr, how, _ in traces}
-                ok = outcomes == ({"raise"} if must_raise else {"store"})
+    ABSENT = object()
+    a1, a1b, a2 = ("example.com", 8080), ("example.com", int("8080")), ("other.org", 8080)
+    a1b = tuple(list(a1b))  # equal to a1, not the same object
+    v1, v1b, v2 = SS("http", ("proxy.local", 3128)), SS("http", ("proxy.local", 3128)), SS("http", ("proxy2.local", 3128))
+    values = {
+        "address": [(a1, a1, False), (a1, a1b, False), (a1, a2, True), (a1, ("example.com", 8081), True), (None, a1, True), (a1, None, True), (None, None, False)],
+        "via": [(None, None, False), (v1, v1, False), (v1, v1b, False), (v1, v2, True), (None, v1, True), (v1, None, True), (v1, SS("https", ("proxy.local", 3128)), True)],
+        "peername": [(None, ("10.0.0.1", 443), True), (("10.0.0.1", 443), ("10.0.0.1", 443), False)],
+        "sni": [(None, "example.com", True), ("example.com", "example.com", False)],
+        "state": [(None, None, True)],  # (filled in below: the assigned state differs from / equals the current one)
+        "error": [(None, "connection refused", True)],
+        "timestamp_end": [(None, 1.5, True)],
+    }
+    bad: dict = {}
+    n = n_cells = 0
+    halfopen = [m for m in flag if m not in (flag["CLOSED"], OPEN_)]
+    for name, pairs in values.items():
+        for state in [None, flag["CLOSED"], OPEN_] + halfopen:
+            for cur, value, changed in pairs:
+                if name == "state":
+                    if state is None:
+                        cur, value, changed = ABSENT, flag["CLOSED"], True
+                    else:
+                        cur, value, changed = state, (flag["CLOSED"] if state is OPEN_ else OPEN_), True
+                elif state is None:
+                    cur = ABSENT  # (the dataclass __init__ assigns the fields one by one: nothing is there yet)
+                    changed = True
+                is_open = state is OPEN_
+                must_raise = name in ("address", "via") and is_open and changed
+                if state in halfopen and name in ("address", "via") and changed:
+                    continue  # half-closed connections: not "open" today; the property does not say (either answer is accepted)
+                kind, exc, before, after = run(name, state, cur, value)
+                n_cells += 1
+                # the outcome is read off the object: its attributes afterwards (whichever way they were written)
+                if must_raise:
+                    ok = kind == "raise" and after == before
+                else:
+                    ok = kind == "store" and after == {**before, name: value}
                 n += ok
                 if not ok:
-                    if must_raise:
-                        why = f"server.{name} can be changed while the connection is open - requests already routed to this connection would go to another destination"
-                    else:
-                        why = f"assignment of {name} (open={OPEN}, changed={CHG}) must simply store the value"
-                    ctx.fail("R08.4", w, f"name={name} open={OPEN} changed={CHG}", f"{why}; outcomes {sorted(outcomes)}")
-    ctx.ok("R08.4", f"Server.__setattr__ decision table: {n}/20 cells as required (raise iff name in (address, via) and open and changed)")
+                    cell = (name, is_open, changed)
+                    if cell not in bad:
+                        st_txt = "not initialised yet" if state is None else state.name
+                        diff = {k: v for k, v in after.items() if k not in before or before[k] != v}
+                        got = (f"raises {exc}" if kind == "raise" else "returns") + (f" having set {diff}" if diff else " without storing anything")
+                        bad[cell] = f"state {st_txt}, current value {'<unset>' if cur is ABSENT else repr(cur)}, assigned {value!r}: {got}"
+    for (name, is_open, changed), how in bad.items():
+        if name in ("address", "via") and is_open and changed:
+            why = f"server.{name} can be changed while the connection is open - requests already routed to this connection would go to another destination"
+        else:
+            why = f"assignment of {name} (open={is_open}, changed={changed}) must simply store the value"
+        ctx.fail("R08.4", w, f"name={name} open={is_open} changed={changed}", f"{why}; {how}")
+    ctx.ok("R08.4", f"Server.__setattr__ interpreted in {n_cells} worlds (name x state x current/assigned value): {n} as required (raise iff name in (address, via) and state is OPEN and the value changes, else store)")
     ctx.expect_instances("R08.4", 1)
 
 
@@ -1167,6 +1276,10 @@ MUTANTS = [
     Mutant("setattr-guard-only-address", CONN, "        if name in (\"address\", \"via\"):\n            connection_open", "        if name in (\"address\",):\n            connection_open", "R08.4"),
     Mutant("setattr-guard-closed", CONN, "                is ConnectionState.OPEN\n            )\n            # assigning", "                is ConnectionState.CLOSED\n            )\n            # assigning", "R08.4"),
     Mutant("setattr-guard-never-changed", CONN, "if connection_open and attr_changed:", "if connection_open and not attr_changed:", "R08.4"),
+    Mutant("setattr-guard-only-when-set", CONN, "attr_changed = self.__dict__.get(name) != value", "attr_changed = self.__dict__.get(name) is not None and self.__dict__.get(name) != value", "R08.4"),
+    Mutant("setattr-store-before-guard", CONN, "        if name in (\"address\", \"via\"):\n            connection_open", "        super().__setattr__(name, value)\n        if name in (\"address\", \"via\"):\n            connection_open", "R08.4"),
+    Mutant("setattr-guard-half-open-only", CONN, "                is ConnectionState.OPEN\n            )\n            # assigning", "                is ConnectionState.CAN_WRITE\n            )\n            # assigning", "R08.4"),
+    Mutant("setattr-guard-clearing-allowed", CONN, "if connection_open and attr_changed:", "if connection_open and attr_changed and value is not None:", "R08.4"),
     # R08.5
     Mutant("register-error-hands-out-connection", I, "        if command.err:\n            reply = (None, command.err)\n        else:", "        if not command.connection:\n            reply = (None, command.err)\n        else:", "R08.5"),
     Mutant("register-keeps-waiters", I, "waiting = self.waiting_for_establishment.pop(command.connection)", "waiting = self.waiting_for_establishment[command.connection]", "R08.5"),
